@@ -51,6 +51,11 @@ CLAIMS = {
         text="The real receiver is driven by a reference sender written only from the protocol description (synthetic stats incl. hard-link layouts and special files, prior destinations with identity-equal files, chunkings from 1 byte to 1 MiB, drawn interleavings of ids, DATA racing later STATs, fan-out up to 1100 pending requests, early end of stream). Checked: each REQ names an already-announced regular non-link file whose identity differs, once; FIN only after marker and all terminators; at FIN time every file already holds exactly the bytes sent; success after echo+close, error on early end; final tree equals what was announced. Sampled, no proof.",
         note="Trusted peer is harness/refsend.go. Hard-link timing exception as in C02.",
         ref="4 C07"),
+    "C19": dict(
+        technique="rapid-generated trees x selectors x prior destinations through the real Send/Receive pair in metadata-only mode; own listing decoder, REQ log mapped through the STAT index, C01's snapshot oracle on the materialised subset",
+        text="Generated trees (incl. a root or nested entry with the listing's own name, prefix-colliding directory names, listings from a few records to ~150 KiB, one stat larger than a 32 KiB chunk) are transferred with a drawn selector (none, all, files, directories, subsets closed under link source) into fresh and populated destinations that may hold an old listing file or (dangling) symlink of that name, merge on/off. The listing is decoded with an independent decoder and must equal the announced STATs in order; content requests must be exactly the selected regular files by their true STAT index; the destination minus the listing must equal the selected entries plus ancestors with stale entries removed; every materialised entry is notified once and nothing else is. Sampled, no proof.",
+        note="A root entry with the listing name that is a non-empty directory (or a hard-link source) is outside the domain; merge mode is checked for presence of selected entries only.",
+        ref="4 C19"),
 }
 
 NOT_YET = "check not built yet in this round (planned, see DESIGN.md section 9)"
